@@ -154,6 +154,8 @@ def as_iterable(run, items):
     one-shot iterator, generator."""
     k = run.rng.randrange(6)
     items = list(items)
+    if items and all(isinstance(x, str) and len(x) == 1 for x in items) and run.rng.random() < .5:
+        return ''.join(items)        # a str is an iterable of its characters
     if k == 0:
         return items
     if k == 1:
